@@ -25,7 +25,11 @@ RULE = ('one generator, twelve entry points: versionedDecode of every response t
         'front of that unit surface (below the fetch level with the partial-trailing flag set); length clause: message size / batch length / '
         'record varint length (checksum recomputed) changed => error or a prefix of the original records per partition, and an error whenever the '
         'lying size still delimits a unit inside the buffer; records size of a fetch partition changed (the envelope behind it is framed anew and '
-        'carries no checksum) => error or only records of the original response surface; the same one level up on the messages parseResponse hands out; an outcome '
+        'carries no checksum) => error or only records of the original response surface; record COUNT of a batch lowered or bytes / a further '
+        'record appended behind the counted records, batch length and CRC-32C recomputed, section re-compressed (5 codecs) => error; count raised => '
+        'error or a flagged partial batch; bytes appended behind the complete messages of the inner set of a valid compressed wrapper message => '
+        'error, all original records, or an incomplete flag somewhere in the value: a complete CRC-valid unit never yields a shorter record list '
+        'without an error or a partial-trailing flag; the same one level up on the messages parseResponse hands out; an outcome '
         'outside these is excused only if the harness\'s own strict parser accepts the mutated bytes and agrees with sarama. Non-trivial: the input is a '
         'mutation of a valid encoding, or noise of which the decoder consumed >= 8 bytes; distinct = (entry, type, version, hash of the input).')
 
